@@ -784,19 +784,23 @@ func (a *act) builtin(b *ssa.Builtin, c *ssa.CallCommon, args []Val, guard strin
 		r := fx.alloc(st, "append")
 		na := fx.ctx.Fresh("appended", ArrS(SInt, es))
 		ls, lt := App("slen", s.T), App("slen", t.T)
-		fx.ctx.Assert(fmt.Sprintf("(forall ((i Int)) (! (=> (and (<= 0 i) (< i %s)) (= (select %s i) (select (select %s (sbase %s)) (sidx %s i)))) :pattern ((select %s i)) :pattern ((select (select %s (sbase %s)) (sidx %s i)))))", ls, na, h, s.T, s.T, na, h, s.T, s.T))
+		// the new heap and the result slice first, so that the axioms below can speak about result[i] directly:
+		// instantiating them from the source side then creates the term result[i] that existential goals need as a witness
+		fx.setSV(st, hn, hs, Store(fx.sv(st, hn, hs), r, na))
+		h2 := fx.sv(st, hn, hs)
+		resT := fmt.Sprintf("(mk-slice %s 0 (+ %s %s))", r, ls, lt)
+		res := fx.ctx.Fresh("appendres", SSlice)
+		fx.ctx.Assert(Eq(res, resT))
+		fx.ctx.Assert(Eq(Sel(h2, r), na))
+		elemR := func(idx string) string { return Sel(Sel(h2, r), App("sidx", res, idx)) }
+		fx.ctx.Assert(fmt.Sprintf("(forall ((i Int)) (! (=> (and (<= 0 i) (< i %s)) (= %s (select (select %s (sbase %s)) (sidx %s i)))) :pattern (%s) :pattern ((select (select %s (sbase %s)) (sidx %s i)))))", ls, elemR("i"), h, s.T, s.T, elemR("i"), h, s.T, s.T))
+		fx.ctx.Assert(fmt.Sprintf("(forall ((i Int)) (! (=> (and (<= 0 i) (< i %s)) (= (select %s i) (select (select %s (sbase %s)) (sidx %s i)))) :pattern ((select %s i))))", ls, na, h, s.T, s.T, na))
 		fx.ctx.Assert(fmt.Sprintf("(forall ((j Int)) (! (=> (and (<= %s j) (< j (+ %s %s))) (= (select %s j) (select (select %s (sbase %s)) (sidx %s (- j %s))))) :pattern ((select %s j))))", ls, ls, lt, na, h, t.T, t.T, ls, na))
-		fx.ctx.Assert(fmt.Sprintf("(forall ((i Int)) (! (=> (and (<= 0 i) (< i %s)) (= (select %s (+ %s i)) (select (select %s (sbase %s)) (sidx %s i)))) :pattern ((select (select %s (sbase %s)) (sidx %s i)))))", lt, na, ls, h, t.T, t.T, h, t.T, t.T))
+		// (no source-side trigger for the shifted part: together with the result-side trigger it would ping-pong forever)
 		// common case: one appended element
 		fx.ctx.Assert(Imp(Eq(lt, "1"), Eq(Sel(na, ls), Sel(Sel(h, App("sbase", t.T)), App("soff", t.T)))))
-		fx.setSV(st, hn, hs, Store(fx.sv(st, hn, hs), r, na))
-		res := fmt.Sprintf("(mk-slice %s 0 (+ %s %s))", r, ls, lt)
 		fx.eng.assume("append always copies into a fresh backing array (no writes into spare capacity of a shared array)")
-		var nm ssa.Value = in
-		if in == nil {
-			return Val{T: res, S: SSlice, GT: c.Args[0].Type()}
-		}
-		return Val{T: a.bind(nm, res, SSlice), S: SSlice, GT: c.Args[0].Type()}
+		return Val{T: res, S: SSlice, GT: c.Args[0].Type()}
 	case "copy":
 		d, s := args[0], args[1]
 		et := c.Args[0].Type().Underlying().(*types.Slice).Elem()
